@@ -311,7 +311,7 @@ class Interp:
                     elif held.name.startswith("func:"):
                         fname = held.name[5:]
                 fval = held
-            args = [self.eval(a, st) for a in e.args if not isinstance(a, ast.Starred)]
+            args = [self.eval(a, st) for a in e.args]  # *x arrives as R('starred', of=x)
             kwargs = {k.arg: self.eval(k.value, st) for k in e.keywords if k.arg}
             if st.pending is not None:
                 return U("an operand raised")  # the call itself never happens
@@ -647,8 +647,10 @@ class Interp:
             elif isinstance(a, R) and isinstance(b, R):
                 if a == b:
                     r = True
+                elif isinstance(op, (ast.Eq, ast.NotEq)) and (a.kind != b.kind or a.kind in ("val",)):
+                    return None  # == may be user-defined
                 else:
-                    return None if isinstance(op, (ast.Eq, ast.NotEq)) else False
+                    r = False  # structurally different records denote different objects
             else:
                 r = False  # values of different sorts are distinct
             return (not r) if neg else r
